@@ -91,7 +91,8 @@ Proof. unfold same_ctl. intros a b c [A1 [A2 A3]] [B1 [B2 B3]]. repeat split; co
 
 (* M2: an iterator drops its reference (hashtable_node_deref of its node) *)
 Lemma goodp_unpark : forall s P hi cur, GoodP s (hi :: P) -> hi_node hi = Some cur ->
-  exists s' ns, node_deref s cur = Ok (s', ns) /\ GoodP s' P /\ same_ctl s s'.
+  exists s' ns, node_deref s cur = Ok (s', ns) /\ GoodP s' P /\ same_ctl s s' /\
+    (h_buckets s' = h_buckets s \/ h_buckets s' = map (remove_id cur) (h_buckets s)).
 Proof.
   intros s P hi cur G Hc.
   assert (Hb : In cur (bucket s (hi_bucket hi))) by (apply (p_iter _ _ G hi cur); auto; left; auto).
@@ -116,7 +117,7 @@ Proof.
       * intros hi2 x Hhi2 Hn. unfold bucket. simpl. rewrite nth_map_remove. unfold remove_id. apply filter_In. split.
         apply (p_iter _ _ G hi2 x); auto. right; auto.
         apply negb_true_iff. apply Nat.eqb_neq. intro; subst x. generalize (pcount_pos P hi2 cur Hhi2 Hn). lia.
-    + repeat split.
+    + split. repeat split. right. reflexivity.
   - (* other references remain *)
     eexists _, _. split; [reflexivity|]. split.
     + constructor; simpl.
@@ -127,7 +128,7 @@ Proof.
         { apply Nat.eqb_eq in E. subst x. eexists. split; [reflexivity|]. unfold base in *. simpl. lia. }
         { exists m. split; auto. }
       * intros hi2 x Hhi2 Hn. apply (p_iter _ _ G hi2 x); auto. right; auto.
-    + repeat split.
+    + split. repeat split. left. reflexivity.
 Qed.
 
 (* ---------- the list walks never touch a freed cell ---------- *)
@@ -216,7 +217,7 @@ Proof.
     { eapply goodp_perm. apply perm_swap. apply goodp_park; auto. }
     fold (bumpn n).
     destruct (hi_node hi) as [cur|] eqn:Hc.
-    + destruct (goodp_unpark _ _ hi cur G1 Hc) as [s2 [ns [U1 [U2 U3]]]]. rewrite U1. simpl.
+    + destruct (goodp_unpark _ _ hi cur G1 Hc) as [s2 [ns [U1 [U2 [U3 U4]]]]]. rewrite U1. simpl.
       assert (Hin2 : In id (bucket s2 b')) by (apply (p_iter _ _ U2 {| hi_node := Some id; hi_bucket := b' |} id); auto; left; auto).
       destruct (p_node _ _ U2 id (in_bucket_linked _ _ _ Hin2)) as [n2 [M1 _]]. rewrite M1. simpl.
       eexists _, _, _, _. split; [reflexivity|]. split; [auto|exact U3].
@@ -225,7 +226,7 @@ Proof.
       simpl. rewrite deref_store by (eapply deref_lt; eauto). rewrite Nat.eqb_refl. simpl.
       eexists _, _, _, _. split; [reflexivity|]. split; [auto|repeat split].
   - destruct (hi_node hi) as [cur|] eqn:Hc.
-    + destruct (goodp_unpark _ _ hi cur G Hc) as [s2 [ns [U1 [U2 U3]]]]. simpl. rewrite U1. simpl.
+    + destruct (goodp_unpark _ _ hi cur G Hc) as [s2 [ns [U1 [U2 [U3 U4]]]]]. simpl. rewrite U1. simpl.
       eexists _, _, _, _. split; [reflexivity|]. split; [apply goodp_none_add; auto|exact U3].
     + simpl. eexists _, _, _, _. split; [reflexivity|]. split; [apply goodp_none_add; eapply goodp_none_del; eauto|repeat split].
 Qed.
@@ -234,7 +235,7 @@ Lemma iter_free_safe : forall s P hi, GoodP s (hi :: P) ->
   exists s' ns, h_iter_free v_fixed s hi = Ok (s', ns) /\ GoodP s' P /\ same_ctl s s'.
 Proof.
   intros. unfold h_iter_free. simpl. destruct (hi_node hi) as [cur|] eqn:Hc.
-  - destruct (goodp_unpark _ _ hi cur H Hc) as [s2 [ns [U1 [U2 U3]]]]. eauto.
+  - destruct (goodp_unpark _ _ hi cur H Hc) as [s2 [ns [U1 [U2 [U3 U4]]]]]. eauto.
   - eexists _, _. split; [reflexivity|]. split; [eapply goodp_none_del; eauto|repeat split].
 Qed.
 
@@ -360,7 +361,7 @@ Proof.
         unfold base in *. simpl. rewrite N2 in M2. split; auto; try lia.
       + exists m. auto.
     - intros hi y [Hhi|Hhi] Hn. subst hi. simpl in *. inversion Hn; subst. exact Hin. apply (p_iter _ _ G hi y Hhi Hn). }
-  destruct (goodp_unpark _ _ _ id G1 eq_refl) as [s2 [ns [U1 [U2 U3]]]]. rewrite U1. simpl.
+  destruct (goodp_unpark _ _ _ id G1 eq_refl) as [s2 [ns [U1 [U2 [U3 U4]]]]]. rewrite U1. simpl.
   eexists _, _, _. split; [reflexivity|]. split.
   - constructor; simpl; apply U2.
   - exact U3.
@@ -420,6 +421,168 @@ Proof.
   rewrite E. simpl. eauto.
 Qed.
 End Safe2.
+
+(* ---------- the traversal loop terminates within its fuel ---------- *)
+Lemma after_id_length_lt : forall l id, In id l -> length (after_id id l) < length l.
+Proof.
+  induction l; simpl; intros. contradiction. destruct (Nat.eqb a id) eqn:E. lia.
+  destruct H. subst. rewrite Nat.eqb_refl in E. discriminate. apply IHl in H. lia.
+Qed.
+
+Lemma after_id_after : forall l cur id, NoDup l -> In id (after_id cur l) -> after_id id l = after_id id (after_id cur l).
+Proof.
+  induction l; simpl; intros. contradiction. inversion H; subst.
+  destruct (Nat.eqb a cur) eqn:E.
+  - destruct (Nat.eqb a id) eqn:E2; auto. apply Nat.eqb_eq in E2. subst. contradiction.
+  - assert (In id l) by (eapply after_id_incl; eauto).
+    destruct (Nat.eqb a id) eqn:E2. apply Nat.eqb_eq in E2. subst. contradiction. apply IHl; auto.
+Qed.
+
+Lemma after_id_remove : forall l cur id, id <> cur -> after_id id (remove_id cur l) = remove_id cur (after_id id l).
+Proof.
+  unfold remove_id. induction l; simpl; intros; auto.
+  destruct (Nat.eqb a cur) eqn:E; simpl.
+  - apply Nat.eqb_eq in E. subst. replace (Nat.eqb cur id) with false by (symmetry; apply Nat.eqb_neq; auto). apply IHl; auto.
+  - destruct (Nat.eqb a id) eqn:E2; auto.
+Qed.
+
+Lemma filter_len_le : forall {A} (p : A -> bool) l, length (filter p l) <= length l.
+Proof. induction l; simpl; auto. destruct (p a); simpl; lia. Qed.
+
+Lemma skipn_map' : forall {A B} (f : A -> B) l n, skipn n (map f l) = map f (skipn n l).
+Proof. induction l; destruct n; simpl; auto. Qed.
+
+Definition cands_hi (s : hstate) (hi : hiter) : list nat :=
+  match hi_node hi with Some cur => after_id cur (bucket s (hi_bucket hi)) | None => bucket s (hi_bucket hi) end.
+Definition mu (s : hstate) (hi : hiter) : nat :=
+  if Nat.ltb (hi_bucket hi) (nb s) then length (cands_hi s hi ++ concat (skipn (S (hi_bucket hi)) (h_buckets s))) else 0.
+
+(* position (id, b') inside the remaining sequence of position (cands, b0): what is left after it is shorter *)
+Lemma suffix_shorter : forall (B : list (list nat)) b0 cands id b',
+  ((In id cands /\ b' = b0 /\ exists l, NoDup l /\ nth b0 B [] = l /\ (cands = l \/ exists cur, cands = after_id cur l)) \/
+   (exists j, b' = S (b0 + j) /\ In id (nth j (skipn (S b0) B) []))) ->
+  length (after_id id (nth b' B []) ++ concat (skipn (S b') B)) < length (cands ++ concat (skipn (S b0) B)).
+Proof.
+  intros B b0 cands id b' [[H1 [H2 [l [ND [HL HC]]]]]|[j [H1 H2]]].
+  - subst b'. rewrite HL. rewrite !app_length. destruct HC as [HC|[cur HC]]; subst cands.
+    + generalize (after_id_length_lt l id H1). lia.
+    + rewrite (after_id_after l cur id ND H1). generalize (after_id_length_lt _ id H1). lia.
+  - subst b'. set (rest := skipn (S b0) B) in *.
+    assert (J : j < length rest). { destruct (le_lt_dec (length rest) j); auto. rewrite nth_overflow in H2 by auto. contradiction. }
+    replace (nth (S (b0 + j)) B []) with (nth j rest []) by (unfold rest; rewrite nth_skipn'; f_equal; lia).
+    replace (skipn (S (S (b0 + j))) B) with (skipn (S j) rest) by (unfold rest; rewrite skipn_skipn'; f_equal; lia).
+    rewrite (concat_split rest j J). rewrite !app_length. generalize (after_id_length_lt _ id H2). lia.
+Qed.
+
+Lemma mu_remove : forall (B : list (list nat)) cur id b', id <> cur ->
+  length (after_id id (nth b' (map (remove_id cur) B) []) ++ concat (skipn (S b') (map (remove_id cur) B))) <=
+  length (after_id id (nth b' B []) ++ concat (skipn (S b') B)).
+Proof.
+  intros. rewrite nth_map_remove, skipn_map'. rewrite after_id_remove by auto. unfold remove_id at 2. rewrite concat_filter.
+  unfold remove_id. rewrite <- filter_app. apply filter_len_le.
+Qed.
+
+Section Fuel.
+Variable hf : key -> N.
+
+Lemma iter_next_dec : forall s P hi s' hi' e ns, GoodP s (hi :: P) ->
+  h_iter_next v_fixed s hi = Ok (s', hi', Some e, ns) -> mu s' hi' < mu s hi.
+Proof.
+  intros s P hi s' hi' e ns G. unfold h_iter_next.
+  set (b0 := hi_bucket hi).
+  assert (NDb : forall b, NoDup (bucket s b)) by (intros; unfold bucket; apply nodup_concat_nth; apply (p_nodup _ _ G)).
+  assert (F : (match hi_node hi with
+               | Some cur => do _ <- deref (h_heap s) cur; Ok (after_id cur (bucket s b0))
+               | None => Ok (bucket s b0) end) = Ok (cands_hi s hi)).
+  { unfold cands_hi. fold b0. destruct (hi_node hi) as [cur|] eqn:Hc; auto.
+    assert (Hb : In cur (bucket s b0)) by (apply (p_iter _ _ G hi cur); auto; left; auto).
+    destruct (p_node _ _ G cur (in_bucket_linked _ _ _ Hb)) as [n [N1 _]]. rewrite N1. reflexivity. }
+  rewrite F. cbn [bind].
+  destruct (Nat.ltb b0 (nb s)) eqn:LT.
+  2:{ cbn [bind]. destruct (hi_node hi) as [cur|]; simpl.
+      - destruct (node_deref s cur) as [[s2 ns2]|]; simpl; intro Q; discriminate.
+      - intro Q; discriminate. }
+  destruct (scan_buckets_safe (h_heap s) (skipn (S b0) (h_buckets s)) b0 (cands_hi s hi)) as [r [R1 R2]].
+  { intros id Hid. apply (goodp_all_live _ _ G). apply in_app_or in Hid. destruct Hid as [Hid|Hid].
+    - unfold cands_hi in Hid. fold b0 in Hid. destruct (hi_node hi); [apply after_id_incl in Hid|]; eapply in_bucket_linked; eauto.
+    - apply in_concat_skipn in Hid. destruct Hid as [b' [_ Hid]]. eapply in_bucket_linked; eauto. }
+  rewrite R1. cbn [bind]. destruct r as [[id b']|].
+  2:{ cbn [bind]. destruct (hi_node hi) as [cur|]; simpl.
+      - destruct (node_deref s cur) as [[s2 ns2]|]; simpl; intro Q; discriminate.
+      - intro Q; discriminate. }
+  (* the position found *)
+  assert (POS : (In id (cands_hi s hi) /\ b' = b0 /\ exists l, NoDup l /\ nth b0 (h_buckets s) [] = l /\
+                   (cands_hi s hi = l \/ exists cur, cands_hi s hi = after_id cur l)) \/
+                (exists j, b' = S (b0 + j) /\ In id (nth j (skipn (S b0) (h_buckets s)) []))).
+  { destruct (R2 id b' eq_refl) as [[Q1 Q2]|Q]; auto. left. split; auto. split; auto.
+    exists (bucket s b0). split; auto. split; auto. unfold cands_hi. fold b0. destruct (hi_node hi); eauto. }
+  assert (Hin : In id (bucket s b')).
+  { destruct POS as [[Q1 [Q2 _]]|[j [Q1 Q2]]].
+    - subst. unfold cands_hi in Q1. fold b0 in Q1. destruct (hi_node hi); auto. eapply after_id_incl; eauto.
+    - subst. rewrite nth_skipn' in Q2. unfold bucket. replace (S (b0 + j)) with (S b0 + j) by lia. auto. }
+  assert (Hb' : b' < nb s).
+  { unfold nb. destruct (le_lt_dec (length (h_buckets s)) b'); auto. unfold bucket in Hin. rewrite nth_overflow in Hin by auto. contradiction. }
+  assert (MU : mu s hi = length (cands_hi s hi ++ concat (skipn (S b0) (h_buckets s)))).
+  { unfold mu. fold b0. rewrite LT. auto. }
+  generalize (suffix_shorter (h_buckets s) b0 (cands_hi s hi) id b' POS). rewrite <- MU. intro DEC.
+  destruct (p_node _ _ G id (in_bucket_linked _ _ _ Hin)) as [n [N1 _]]. rewrite N1. cbn [bind].
+  fold (bumpn n).
+  destruct (hi_node hi) as [cur|] eqn:Hc.
+  - assert (G1 : GoodP (set_heap s (store (h_heap s) id (bumpn n))) (hi :: {| hi_node := Some id; hi_bucket := b' |} :: P)).
+    { eapply goodp_perm. apply perm_swap. apply goodp_park; auto. }
+    destruct (goodp_unpark _ _ hi cur G1 Hc) as [s2 [ns2 [U1 [U2 [U3 U4]]]]]. rewrite U1. cbn [bind].
+    (* cur is not the node found: it lies before the remaining sequence *)
+    assert (NE : id <> cur).
+    { intro; subst id. assert (Hbc : In cur (bucket s b0)) by (apply (p_iter _ _ G hi cur); auto; left; auto).
+      destruct POS as [[Q1 _]|[j [Q1 Q2]]].
+      - unfold cands_hi in Q1. fold b0 in Q1. rewrite Hc in Q1. eapply after_id_notin; eauto.
+      - rewrite nth_skipn' in Q2. assert (S b0 + j = b0). { eapply nodup_concat_unique; eauto. apply (p_nodup _ _ G). } lia. }
+    assert (M2 : mu s2 {| hi_node := Some id; hi_bucket := b' |} < mu s hi).
+    {
+    assert (U4' : h_buckets s2 = h_buckets s \/ h_buckets s2 = map (remove_id cur) (h_buckets s)) by exact U4.
+    apply Nat.ltb_lt in Hb'.
+    unfold mu at 1. cbn [hi_bucket hi_node]. unfold nb, cands_hi, bucket. cbn [hi_bucket hi_node].
+    destruct U4' as [U5|U5]; rewrite U5.
+    + fold (nb s). rewrite Hb'. exact DEC.
+    + rewrite map_length. fold (nb s). rewrite Hb'. eapply Nat.le_lt_trans. apply mu_remove; auto. exact DEC.
+    }
+    destruct (deref (h_heap s2) id) as [n2|]; simpl; intro Q; inversion Q; subst. exact M2.
+  - simpl. rewrite deref_store by (eapply deref_lt; eauto). rewrite Nat.eqb_refl. simpl. intro Q; inversion Q; subst. clear Q.
+    apply Nat.ltb_lt in Hb'.
+    unfold mu at 1. cbn [hi_bucket hi_node]. unfold nb, cands_hi, bucket. cbn [hi_bucket hi_node h_buckets set_heap].
+    fold (nb s). rewrite Hb'. exact DEC.
+Qed.
+
+Lemma foreach_loop_total : forall fuel s P hi stop calls acc nacc, GoodP s (hi :: P) -> mu s hi < fuel ->
+  exists s' hi' l ns, foreach_loop v_fixed fuel s hi stop calls acc nacc = Ok (s', hi', l, ns).
+Proof.
+  induction fuel; simpl; intros. lia.
+  destruct (iter_next_safe s P hi H) as [s1 [hi1 [r [ns [E [G1 C1]]]]]]. rewrite E. simpl.
+  destruct r as [e|]; eauto.
+  destruct (negb (Nat.eqb stop 0) && Nat.leb stop (S calls)); eauto.
+  apply IHfuel with (P := P); auto. generalize (iter_next_dec s P hi s1 hi1 e ns H E). lia.
+Qed.
+
+Lemma mu_start : forall s P, GoodP s P -> mu s h_iter_create <= length (h_heap s).
+Proof.
+  intros. unfold mu, h_iter_create, cands_hi, bucket. cbn [hi_bucket hi_node]. destruct (Nat.ltb 0 (nb s)) eqn:E; [|lia].
+  apply Nat.ltb_lt in E.
+  assert (nth 0 (h_buckets s) [] ++ concat (skipn 1 (h_buckets s)) = linked s).
+  { unfold linked. rewrite (concat_split (h_buckets s) 0) by exact E. reflexivity. }
+  rewrite H0. apply nodup_bounded_length. apply (p_nodup _ _ H).
+  intros x Hx. destruct (p_node _ _ H x Hx) as [n [N _]]. eapply deref_lt; eauto.
+Qed.
+
+Lemma foreach_total : forall s P stop, GoodP s P -> exists s' l ns, h_foreach v_fixed s stop = Ok (s', l, ns).
+Proof.
+  intros. unfold h_foreach.
+  destruct (foreach_loop_total (S (S (length (h_heap s)))) s P h_iter_create stop 0 [] [] (goodp_none_add s P 0 H)) as [s1 [hi1 [l [ns E]]]].
+  { generalize (mu_start s P H). lia. }
+  rewrite E. simpl.
+  generalize (foreach_loop_safe (S (S (length (h_heap s)))) s P h_iter_create stop 0 [] [] (goodp_none_add s P 0 H)). rewrite E.
+  intros [G1 _]. destruct (iter_free_safe s1 P hi1 G1) as [s2 [ns2 [F1 _]]]. rewrite F1. simpl. eauto.
+Qed.
+End Fuel.
 
 (* ---------- all histories ---------- *)
 Definition its (s : hstate) : list hiter := map snd (h_iters s).
@@ -525,6 +688,56 @@ Proof.
         apply in_app_or in Hx. apply in_or_app. destruct Hx; auto. right. right. auto.
 Qed.
 
+Theorem hash_step_total : forall s o, TopInv s ->
+  exists s' x ns, h_step v_fixed hf rc s o = Ok (s', x, ns) /\ TopInv s'.
+Proof.
+  intros s o [D|T]; destruct rc as [[e1 e2] e3]; unfold h_step.
+  - rewrite D. simpl. eexists _, _, _; split; [reflexivity|]. left; auto.
+  - destruct (h_alive s) eqn:A; simpl. 2:{ eexists _, _, _; split; [reflexivity|]. left; auto. }
+    destruct o.
+    + destruct (put_safe hf s (its s) k v (t_good _ T)) as [s' [ns [E [G C]]]]. rewrite E. simpl. eexists _, _, _; split; [reflexivity|]. eapply top_same; eauto.
+    + destruct (get_safe hf s (its s) k (t_good _ T)) as [x E]. rewrite E. simpl. eexists _, _, _; split; [reflexivity|]. right; auto.
+    + destruct (rm_safe hf s (its s) k (t_good _ T)) as [s' [b [ns [E [G C]]]]]. rewrite E. simpl. eexists _, _, _; split; [reflexivity|]. eapply top_same; eauto.
+    + eexists _, _, _; split; [reflexivity|]. right; auto.
+    + generalize (foreach_safe s (its s) stop (t_good _ T)).
+      destruct (foreach_total s (its s) stop (t_good _ T)) as [s' [l [ns E]]]. rewrite E. simpl. intros [G C].
+      eexists _, _, _; split; [reflexivity|]. eapply top_same; eauto.
+    + destruct (notify_add_safe hf e1 e2 e3 s (its s) k fn ev ud (t_good _ T)) as [s' [z [E [G C]]]]. rewrite E. simpl. eexists _, _, _; split; [reflexivity|]. eapply top_same; eauto.
+    + destruct (notify_del_safe hf e2 s (its s) k fn ev ud (t_good _ T)) as [s' [z [E [G C]]]]. rewrite E. simpl. eexists _, _, _; split; [reflexivity|]. eapply top_same; eauto.
+    + destruct (destroy_safe s (its s) (t_good _ T)) as [s' [ns [E D]]]. rewrite E. simpl. eexists _, _, _; split; [reflexivity|]. left. exact D.
+    + destruct (existsb (Nat.eqb it) (h_used s)) eqn:U. eexists _, _, _; split; [reflexivity|]. right; auto.
+      eexists _, _, _; split; [reflexivity|]. right. constructor; simpl.
+      * unfold its. simpl. eapply goodp_ctl. 3:{ apply goodp_none_add. apply (t_good _ T). } reflexivity. reflexivity.
+      * constructor. 2: apply (t_ids _ T). intro Q. apply (t_used _ T) in Q.
+        assert (existsb (Nat.eqb it) (h_used s) = true) by (apply existsb_exists; exists it; split; auto; apply Nat.eqb_refl). congruence.
+      * intros x [Hx|Hx]. left; auto. right. apply (t_used _ T); auto.
+    + destruct (iter_lookup (h_iters s) it) as [hi|] eqn:L. 2:{ eexists _, _, _; split; [reflexivity|]. right; auto. }
+      destruct (iter_split _ _ _ L) as [l1 [l2 [Q1 Q2]]].
+      assert (Q3 : ~ In it (map fst l2)).
+      { generalize (t_ids _ T). rewrite Q1, map_app. simpl. intro ND. apply nodup_app_r in ND. inversion ND; auto. }
+      assert (PM : Permutation (its s) (hi :: map snd l1 ++ map snd l2)).
+      { unfold its. rewrite Q1, map_app. simpl. apply Permutation_sym. apply Permutation_middle. }
+      destruct (iter_next_safe s (map snd l1 ++ map snd l2) hi (goodp_perm _ _ _ PM (t_good _ T))) as [s1 [hi1 [r [ns [E [G [C1 [C2 C3]]]]]]]].
+      rewrite E. simpl. eexists _, _, _; split; [reflexivity|]. right. rewrite C1, Q1. destruct (iter_set_split l1 l2 it hi hi1 Q2 Q3) as [S1 _]. rewrite S1.
+      constructor; simpl.
+      * unfold its. simpl. rewrite map_app. simpl. eapply goodp_ctl. 3:{ eapply goodp_perm. apply Permutation_middle. exact G. } reflexivity. reflexivity.
+      * generalize (t_ids _ T). rewrite Q1, !map_app. simpl. auto.
+      * rewrite C2. generalize (t_used _ T). rewrite Q1, !map_app. simpl. auto.
+    + destruct (iter_lookup (h_iters s) it) as [hi|] eqn:L. 2:{ eexists _, _, _; split; [reflexivity|]. right; auto. }
+      destruct (iter_split _ _ _ L) as [l1 [l2 [Q1 Q2]]].
+      assert (Q3 : ~ In it (map fst l2)).
+      { generalize (t_ids _ T). rewrite Q1, map_app. simpl. intro ND. apply nodup_app_r in ND. inversion ND; auto. }
+      assert (PM : Permutation (its s) (hi :: map snd l1 ++ map snd l2)).
+      { unfold its. rewrite Q1, map_app. simpl. apply Permutation_sym. apply Permutation_middle. }
+      destruct (iter_free_safe s (map snd l1 ++ map snd l2) hi (goodp_perm _ _ _ PM (t_good _ T))) as [s1 [ns [E [G [C1 [C2 C3]]]]]].
+      rewrite E. simpl. eexists _, _, _; split; [reflexivity|]. right. rewrite C1, Q1. destruct (iter_set_split l1 l2 it hi hi Q2 Q3) as [_ S2]. rewrite S2.
+      constructor; simpl.
+      * unfold its. simpl. rewrite map_app. eapply goodp_ctl. 3: exact G. reflexivity. reflexivity.
+      * generalize (t_ids _ T). rewrite Q1, !map_app. simpl. intro ND. apply NoDup_remove_1 in ND. auto.
+      * rewrite C2. intros x Hx. apply (t_used _ T). rewrite Q1, !map_app. rewrite map_app in Hx. simpl.
+        apply in_app_or in Hx. apply in_or_app. destruct Hx; auto. right. right. auto.
+Qed.
+
 Lemma top_create : forall m, TopInv (h_create m).
 Proof.
   intros. right. assert (L : linked (h_create m) = []) by (unfold linked, h_create; simpl; apply concat_repeat_nil).
@@ -549,6 +762,17 @@ Qed.
 Theorem hash_c18_safe : forall m ops,
   match snd (h_run v_fixed hf rc (h_create m) ops) with None => True | Some e => e = OutOfFuel end.
 Proof. intros. apply hash_c18_safe_from. apply top_create. Qed.
+(* C18, first clause, in full: EVERY history runs to its end without any error state (no use after free, no out of
+   bounds, no reference underflow, and the traversal loop stays within its fuel) *)
+Theorem hash_c18_no_error_from : forall ops s, TopInv s -> snd (h_run v_fixed hf rc s ops) = None.
+Proof.
+  induction ops; simpl; intros; auto.
+  destruct (hash_step_total s a H) as [s' [x [ns [E T]]]]. rewrite E.
+  specialize (IHops s' T). destruct (h_run v_fixed hf rc s' ops). simpl in *. auto.
+Qed.
+
+Theorem hash_c18_no_error : forall m ops, snd (h_run v_fixed hf rc (h_create m) ops) = None.
+Proof. intros. apply hash_c18_no_error_from. apply top_create. Qed.
 End Run.
 
 Lemma c18_example_state :
